@@ -38,6 +38,15 @@ EOrder(s) == LET q == SetToSortSeq(E, LAMBDA a, b : LessE(a, b, s))             
 Attr == [v \in V |-> IF salt % 3 = 0 THEN 1
                      ELSE IF salt % 3 = 1 THEN 1 + (KeyV(v, salt) % 2)
                      ELSE 1 + (KeyV(v, salt) % 4)]          \* index into the (name,mass) palette
+\* second attribute assignment from the palette of NON-dyadic masses (indices 11..19: 1.008, 12.011, 15.999,
+\* 0.1, 0.2, 0.3, 0.001, 1e16, 1): sums of such masses depend on the order of summation
+Attr2 == [v \in V |-> 11 + (KeyV(v, salt + 2) % 9)]
+\* multigraph corner cases the edge container accepts: self edges <<v,v>> on salt-chosen vertices (isolated
+\* ones included) and a second copy of salt-chosen edges
+Loops == {v \in V : KeyV(v, salt + 11) % 3 = 0}
+Dups == {e \in E : KeyE(e, salt + 12) % 3 = 0}
+LoopEdges == {<<v, v>> : v \in Loops}
+MParts == {[v |-> C, e |-> CompEdges(E, C) \cup {<<v, v>> : v \in Loops \cap C}] : C \in SpecComponents(V, E)}
 Rank(v) == Cardinality({u \in V : LessV(u, v, salt + 5)})
 Pi == [v \in V |-> Pool[((Rank(v) + salt) % Len(Pool)) + 1]]
 \* negative copy: same graph, one attribute changed (even salt) or one extra isolated bead (odd salt / empty graph)
@@ -57,6 +66,15 @@ SingleLaw == ph = 0 \/
   ( /\ \A s \in V : AlgoSingle(V, E, s) = SpecSingle(V, E)
     /\ SpecSingle(V, E) = (Cardinality(SpecComponents(V, E)) = 1 /\ \A v \in V : Deg(E, v) # 0) )
 RedLaw == ph = 0 \/ ReduceLaw(V, E)
+\* with self edges / repeated edges: the parts are vertex-disjoint, connected, and the union of their edge SETS is the
+\* graph's edge set including the self edges (hop counts and components do not depend on multiplicities)
+MultiLaw == ph = 0 \/
+  ( /\ UNION {p.e : p \in MParts} = E \cup LoopEdges
+    /\ IsPartition({p.v : p \in MParts}, V)
+    /\ \A p, q \in MParts : p # q => p.e \cap q.e = {}
+    /\ \A p \in MParts : \A f \in p.e : Ends(f) \subseteq p.v )
+IdInvariant2 == ph = 0 \/
+  IdCands(V, E, Attr2) = IdCands(RelabV(V, Pi), RelabE(E, Pi), RelabAttr(V, Attr2, Pi))
 BranchLaws == ph = 0 \/ \A s \in V : BranchLaw(V, E, s)
 ChainClassLaw == ph = 0 \/ ChainsAreLinkClasses(V, E)
 RedUniqueLaw == ph = 0 \/ Cardinality(E) > 7 \/ ReduceUnique(V, E)
@@ -93,6 +111,15 @@ Vector == (Emit /\ ph = 1) => PrintT(ToJson([
     branches |-> LET vo == SelectSeq(VOrder(salt + 7), LAMBDA v : Deg(E, v) > 0)
                      ss == IF Cardinality(V) <= 5 THEN {vo[i] : i \in 1..Len(vo)} ELSE {vo[i] : i \in 1..(IF Len(vo) < 2 THEN Len(vo) ELSE 2)}
                  IN {[s |-> s, e |-> e, b |-> SpecBranch(V, E, s, e)] : <<s, e>> \in {se \in ss \X E : se[1] \in Ends(se[2])}},
+    at2    |-> LET vo == VOrder(salt) IN [i \in 1..Len(vo) |-> Attr2[vo[i]]],
+    rat2   |-> LET vo == VOrder(salt + 3) IN [i \in 1..Len(vo) |-> Attr2[vo[i]]],
+    rvs3   |-> LET vo == VOrder(salt + 13) IN [i \in 1..Len(vo) |-> Pi[vo[i]]],
+    rat3   |-> LET vo == VOrder(salt + 13) IN [i \in 1..Len(vo) |-> Attr2[vo[i]]],
+    mes    |-> EOrder(salt) \o SetToSortSeq(LoopEdges, LAMBDA a, b : a[1] < b[1]) \o SetToSortSeq(Dups, LAMBDA a, b : LessE(a, b, salt + 2)),
+    mres   |-> LET m == EOrder(salt + 4) \o SetToSortSeq(Dups, LAMBDA a, b : LessE(a, b, salt + 5)) \o SetToSortSeq(LoopEdges, LAMBDA a, b : a[1] > b[1])
+               IN [i \in 1..Len(m) |-> <<Pi[m[i][1]], Pi[m[i][2]]>>],
+    mparts |-> MParts,
+    nloops |-> Cardinality(Loops), ndups |-> Cardinality(Dups),
     cands  |-> IF Cardinality(V) > 5 /\ salt # 0 THEN {} ELSE {{<<p[1], p[2], c[p]>> : p \in DOMAIN c} : c \in IdCands(V, E, Attr)},
     equivRelabelled |-> TRUE,
     equivAltered    |-> FALSE ]))
